@@ -120,8 +120,14 @@ Proof. exact entity_iter_exact. Qed.
 Print Assumptions C05_entities.
 
 Theorem C05_entities_back : forall n del rdel, (forall i, i < n -> rdel i = Some (del i)) ->
-  forall c c', e_wf n del c -> e_valid c = true -> e_next rdel n c = Some c' -> e_valid c' = true -> e_prev rdel c' = Some c.
-Proof. exact entity_prev_next. Qed.
+  forall c c', e_wf n del c -> e_valid c = true ->
+  (e_next rdel n c = Some c' -> e_valid c' = true -> e_prev rdel c' = Some c) /\
+  (e_prev rdel c = Some c' -> e_valid c' = true -> e_next rdel n c' = Some c).
+Proof.
+  intros n del rdel Hr c c' W V. split.
+  - exact (entity_prev_next n del rdel Hr c c' W V).
+  - exact (entity_next_prev n del rdel Hr c c' W V).
+Qed.
 Print Assumptions C05_entities_back.
 
 (* ---- D11: backward stepping and the valid() protocol.  Stepping back from end() (or from the state reached
@@ -141,6 +147,23 @@ Theorem C05_D11_protocol_refuted :
                         e_prev rdel e = Some c /\ e_idx c = e_idx b /\ e_valid c = false).
 Proof. exact (conj D11_back_from_end_refuted D11_forward_then_back_refuted). Qed.
 Print Assumptions C05_D11_protocol_refuted.
+
+(* ---- D15: cf_iter(c); --it; ++it;  CellFaceIterImpl::operator-- returns early at the first face with its internal
+   iterator at end(); the next ++ steps past end() and dereferences it.  Every other class comes back invalid. *)
+Theorem C05_D15_cell_face_back_then_forward_refuted : forall l m x t, l = x :: t ->
+  circ_prev CF l (mkC 0 0%Z true (Some x)) = Some (mkC (length l) (-1)%Z false (Some x)) /\
+  circ_next CF l m (mkC (length l) (-1)%Z false (Some x)) = None.
+Proof. intros l m x t E. exact (cf_prev_at_begin_then_next_undefined l m x t E). Qed.
+Print Assumptions C05_D15_cell_face_back_then_forward_refuted.
+
+Theorem C05_back_then_forward_partial : forall (k : ckind) l m x t, k <> CF -> l = x :: t -> (1 <= m)%Z ->
+  exists c' c'', circ_prev k l (mkC 0 0%Z true (Some x)) = Some c' /\ c_valid c' = false /\
+                 circ_next k l m c' = Some c'' /\ c_valid c'' = false.
+Proof.
+  intros k l m x t Hk. apply (back_then_forward_defined (nextv_of k) (prevv_of k)).
+  destruct k; simpl; congruence.
+Qed.
+Print Assumptions C05_back_then_forward_partial.
 
 (* ---- D8: bc_iter() with face bottom-up incidences disabled reads the empty incident-cell cache *)
 Theorem C05_D8_bc_iter_refuted :
@@ -200,6 +223,24 @@ Proof.
   - intros c. exact (conj eq_refl (conj eq_refl (conj (che_exact s c) (conj (ce_exact s c) (cv_exact s c))))).
 Qed.
 Print Assumptions C05_builders_cell_and_topdown.
+
+(* ---- boundary iterators (bv/bhe/be/bhf/bf/bc_iter): exactly the not-deleted boundary entities, ascending, once;
+   bc_iter only with face incidences enabled (otherwise C05_D8_bc_iter_refuted) *)
+Theorem C05_boundary_iterators : forall (k : kind) (s : mesh), k <> KM -> bu_exact s -> wf_iter s -> flags_sized s ->
+  bnd_has_inc k s = true -> fbu s = true ->
+  (exists b e, bnd_begin k s = Some b /\
+               b_trace (S (ent_n k s)) (ent_rdel k s) (ent_n k s) (is_boundary k s) b
+               = Some (map Z.of_nat (filter (fun i => negb (ent_deleted k s i) && bdry k s i) (seq 0 (ent_n k s))), e) /\
+               b_valid e = false) /\
+  (forall i, i < ent_n k s -> ent_deleted k s i = false -> (bdry k s i = true <-> bnd_of k s i)).
+Proof. exact boundary_iter_exact. Qed.
+Print Assumptions C05_boundary_iterators.
+
+Theorem C05_builders_bhfhf : forall s, bu_exact s -> wf_iter s -> ebu s = true -> fbu s = true ->
+  forall hf, live_f s (hf / 2) = true ->
+  forall x, In x (clist BHFHF s hf) <-> exists he, In he (halfface s hf) /\ inc_hehf s (opp he) x /\ bnd_hf s x.
+Proof. exact bhfhf_exact. Qed.
+Print Assumptions C05_builders_bhfhf.
 
 (* ---- non-vacuity: reachable states (two glued tetrahedra + debris; the same with deferred-deleted entities at
    the front and at the end) satisfy every hypothesis used above *)
